@@ -193,9 +193,12 @@ def trace_events(seed, n):
         skip = False
         if iidx == 0:
             ev["stamped"] = (ri.unix_time - BASE) // 100 if (ri.unix_time - BASE) % 100 == 0 else -2
-            b = max(i for i, tm in enumerate(times) if tm <= tq)
+            bs = [i for i, tm in enumerate(times) if tm <= tq]
+            b = max(bs) if bs else 0
             a = b + 1
-            for o in ri.objects:
+            # a synthesised frame although the query has no loaded frame on one side: nothing to interpolate between (the specification rejects
+            # the event on `interp`; the objects are not described)
+            for o in (ri.objects if bs and a < len(times) else []):
                 in1, in2 = o.uuid in raw[b], o.uuid in raw[a]
                 rec = dict(id=o.uuid, x=int(round(o.state.position[0] * 100)), y=int(round(o.state.position[1] * 100)), yaw=int(round(o.state.orientation.yaw_pitch_roll[0] * 1e4)) % 62832,
                            in1=1 if in1 else 0, in2=1 if in2 else 0)
@@ -210,7 +213,7 @@ def trace_events(seed, n):
                     if d > math.pi - 0.05:
                         skip = True   # (nearly) antipodal: the shortest arc is not defined
                 ev["objs"].append(rec)
-            ev["nobj_union"] = len(set(raw[b]) | set(raw[a]))
+            ev["nobj_union"] = len(set(raw[b]) | set(raw[a])) if bs and a < len(times) else 0
         else:
             ev["nobj_union"] = 0
         if skip:
